@@ -207,6 +207,43 @@ func (x *Exec) specValue(e ast.Expr, env *SpecEnv) TV {
 		base := x.specValue(e.X, env)
 		idx := x.specValue(e.Index, env)
 		return x.specIndex(base, idx, e)
+	case *ast.SliceExpr:
+		base := x.specValue(e.X, env)
+		is := x.idxSort()
+		var arr Value
+		var off, ln Term
+		switch bv := base.V.(type) {
+		case *StructV:
+			if !isSlice(bv) {
+				panic("spec: slice of a struct value")
+			}
+			arr, off, ln = bv.get("$arr"), bv.get("$off").(Term), bv.get("$len").(Term)
+		case Term:
+			at, ok := base.T.Underlying().(*types.Array)
+			if !ok {
+				panic("spec: slice expression on " + exprStr(e))
+			}
+			arr, off, ln = bv, zeroOf(is), x.constOfSort(at.Len(), is)
+		default:
+			panic("spec: slice expression on " + exprStr(e))
+		}
+		low, high := zeroOf(is), ln
+		if e.Low != nil {
+			low = x.coerceTo(x.specValue(e.Low, env), is)
+		}
+		if e.High != nil {
+			high = x.coerceTo(x.specValue(e.High, env), is)
+		}
+		var st types.Type
+		if base.T != nil {
+			switch u := base.T.Underlying().(type) {
+			case *types.Array:
+				st = types.NewSlice(u.Elem())
+			case *types.Slice:
+				st = base.T
+			}
+		}
+		return TV{V: &StructV{Names: []string{"$arr", "$off", "$len"}, F: []Value{arr, x.addIdx(off, low), x.subIdx(high, low)}}, T: st}
 	case *ast.StarExpr:
 		base := x.specValue(e.X, env)
 		pt, ok := base.T.Underlying().(*types.Pointer)
@@ -992,8 +1029,19 @@ func (x *Exec) specCall(c *ast.CallExpr, env *SpecEnv) TV {
 		return TV{V: mk(sortBool, "strcontains", a, b), T: boolT}
 	case "le32":
 		// little-endian 32-bit read: le32(arr, off)
-		arr := arg(0).V.(Term)
+		var arr Term
+		var base Term
+		switch av := arg(0).V.(type) {
+		case Term:
+			arr = av
+		case *StructV:
+			arr = av.get("$arr").(Term)
+			base = av.get("$off").(Term)
+		}
 		off := x.coerceTo(arg(1), arr.T.Idx)
+		if base.S != "" {
+			off = x.addIdx(base, off)
+		}
 		var bs []string
 		for b := 3; b >= 0; b-- {
 			bs = append(bs, tSelect(arr, x.addIdx(off, x.constOfSort(int64(b), arr.T.Idx))).S)
@@ -1146,8 +1194,9 @@ func (x *Exec) specClosed(e ast.Expr, env *SpecEnv) Term {
 			}
 		}
 	}
-	ch := x.specValue(e, env).V.(Term)
-	return tSelect(x.getHeap(env.st, x.chKey("chClosed", sortBool)).(Term), ch)
+	cv := x.specValue(e, env)
+	ch := cv.V.(Term)
+	return tSelect(x.getHeap(env.st, x.chClosedKey(cv.T)).(Term), ch)
 }
 
 func (x *Exec) specCompositeLit(e *ast.CompositeLit, env *SpecEnv) TV {
